@@ -162,6 +162,15 @@ def seed_fault_cases(tier):
                                   'faults': F.faults()})
 
 
+def deep_random_cases(tier):
+    """random chains (explicit depth) with 1-2 random faults"""
+    return st.fixed_dictionaries({
+        'frame': st.builds(deep_frame, st.integers(1, 64),
+                           st.sampled_from(['A', 'F', 'AF', 'FA', 'AAF']),
+                           wire.wire_leaves()),
+        'faults': F.faults()})
+
+
 def dense_cases(tier):
     top = 26000 if tier == 'thorough' else 800
     return st.fixed_dictionaries({
@@ -188,15 +197,86 @@ def byte_sweep_plan(tier):
 def field_sweep_cases(tier, shard, nshards):
     k = 0
     args = (0, 5, 0x1234, 0xDEADBEEFCAFE)
+    neg_args = tuple(range(0, 24))
     for i, (name, data, marks) in enumerate(seeds()):
         for mi in range(len(marks)):
             for mode in F.FIELD_MODES:
-                for arg in (args if mode in ('uniform', 'small', 'big') else (0,)):
+                for arg in (args if mode in ('uniform', 'small', 'big') else
+                            neg_args if mode in ('neg-small', 'neg-rest') else (0,)):
                     for fix in (False, True):
                         if k % nshards == shard:
                             yield {'seed': i,
                                    'faults': [['field', mi, mode, arg, fix]]}
                         k += 1
+
+
+def deep_frame(depth, pattern, leaf):
+    return {'kind': 'method', 'cls': 'Queue.Declare', 'ch': 1,
+            'args': {'ticket': 0, 'queue': 'q', 'passive': False, 'durable': True,
+                     'exclusive': False, 'auto_delete': False, 'nowait': False,
+                     'arguments': [['deep', wire.chain(depth, pattern, leaf)]]}}
+
+
+def deep_fault_cases(tier, shard, nshards):
+    """container chains of every depth 1..64 with one located field (the innermost /
+    outermost lengths and tags) rewritten: depth x pattern x leaf x mark x mode"""
+    leaves = (['S', b'xyz'], ['x', b'xyz'], ['A', []], ['V'])
+    modes = (('inc', 0), ('dec', 0), ('double', 0), ('rest', 0), ('rest+1', 0),
+             ('zero', 0), ('ff', 0), ('neg-small', 3), ('big', 0))
+    k = 0
+    for depth in range(1, 65):
+        for pattern in ('A', 'F', 'AF'):
+            for leaf in leaves:
+                frame_case = deep_frame(depth, pattern, leaf)
+                nmarks = len(wire.render_frame(frame_case)[1])
+                picks = sorted(set(range(max(0, nmarks - 6), nmarks)) | {4, 5})
+                for mi in picks:
+                    for mode, arg in modes:
+                        if k % nshards == shard:
+                            yield {'frame': frame_case,
+                                   'faults': [['field', mi, mode, arg, k % 2 == 0]]}
+                        k += 1
+
+
+def hostile_key_cases(tier, shard, nshards):
+    """a decode failure next to a peer-controlled name that is hostile to templating:
+    every hostile key x every way a table value can fail x nesting position x carrier"""
+    bad_values = [
+        b'Z',                                   # unknown type tag
+        b'T\xff\xff\xff\xff\xff\xff\xff\xff',  # timestamp beyond year 9999
+        b'T\x00\x03\x8d\x7e\xa4\xc6\x80\x00',  # 10**15 ms: year > 9999
+        b'A\x00\x00\x00\xff',                   # array longer than the data
+        b'F\x00\x00\x00\xff',                   # table longer than the data
+        b'S\x00\x00',                           # truncated length
+        b'F\x00\x00\x00\x03\x01\xffV',          # nested key that is not UTF-8
+        b'F\x00\x00\x00\x03\x01kZ',             # nested unknown tag
+        b'D\x01',                               # truncated decimal
+        b'V',                                   # (control: a good value)
+    ]
+    k = 0
+    for key in wire.HOSTILE_KEYS:
+        raw = key.encode('utf-8', 'surrogatepass')
+        for bad in bad_values:
+            for nest in ('top', 'in-table', 'in-array'):
+                entry = bytes([len(raw)]) + raw + bad
+                if nest == 'in-table':
+                    entry = b'\x01oF' + uint(len(entry), 4) + entry
+                elif nest == 'in-array':
+                    inner = b'F' + uint(len(entry), 4) + entry
+                    entry = b'\x01oA' + uint(len(inner), 4) + inner
+                table = uint(len(entry), 4) + entry
+                for carrier in ('method', 'header'):
+                    if k % nshards == shard:
+                        if carrier == 'method':
+                            payload = b'\x00\x32\x00\x0a\x00\x00\x01q\x00' + table
+                            t = 1
+                        else:
+                            payload = b'\x00\x3c\x00\x00' + uint(0, 8) + \
+                                b'\x20\x00' + table
+                            t = 2
+                        yield {'raw': bytes([t]) + b'\x00\x01' +
+                               uint(len(payload), 4) + payload + b'\xce'}
+                    k += 1
 
 
 def trunc_sweep_cases(tier, shard, nshards):
